@@ -171,13 +171,7 @@ func HarnessC02Chain() {
 	}
 	_ = zzmem.Unsigned
 	if depends {
-		// Known finding C02-K1: a policy entry inside the verified range is
-		// accepted with VerifyNewState only (root signature and rollback), its
-		// rule files are never verified, so a forged / unreachable rule file
-		// passes full and from-entry verification.
-		k1 := verif.And(verif.And(err == nil, !valid), verif.And(verif.And(signedByOld, noRollback), verif.And(pushBefore, mode == 0 || mode == 2)))
-		verif.Witness("C02-K1", k1)
-		verif.Assert(verif.Or(verif.Implies(!valid, err != nil), k1), "invalid-policy-entry-fails-verification[mode"+strconv.Itoa(mode)+"]")
+		verif.Assert(verif.Implies(!valid, err != nil), "invalid-policy-entry-fails-verification[mode"+strconv.Itoa(mode)+"]")
 		if err == nil {
 			verif.Reach("accepted")
 		} else {
